@@ -19,7 +19,8 @@ def one(name, tier="quick", props=None):
     subprocess.run(f"git -C /repo worktree remove --force {wt}", shell=True, capture_output=True)
     subprocess.run(f"git -C /repo worktree add -q --detach {wt} HEAD", shell=True, check=True, capture_output=True)
     try:
-        cp = subprocess.run(f"git -C {wt} apply {d}/patch.diff", shell=True, capture_output=True, text=True)
+        patch = f"{d}/patch_head.diff" if os.path.exists(f"{d}/patch_head.diff") else f"{d}/patch.diff"
+        cp = subprocess.run(f"git -C {wt} apply {patch}", shell=True, capture_output=True, text=True)
         if cp.returncode != 0:
             cp = subprocess.run(f"git -C {wt} apply --3way {d}/patch.diff", shell=True, capture_output=True, text=True)
             if cp.returncode != 0:
